@@ -35,9 +35,13 @@ OP_NAMES = {"Seed", "Construct", "Reinit", "Sample", "ObsSample", "Stats", "Eval
             "Save", "Load", "SetStop", "Fit", "Perturb"}
 
 EVAL_COMMON = ["prob", "norm", "apply_sz", "apply_sx", "apply_sy", "apply_nn", "apply_swap", "apply_sum",
-               "sfs", "sys_sfs", "grad", "posgrad", "exactgrad", "nll", "kl", "fid", "hilbert", "isw"]
+               "sfs", "sys_sfs", "grad", "posgrad", "exactgrad", "nll", "kl", "fid", "hilbert", "isw",
+               # calls the library refuses or that fail on the way (the user catches the exception): like every
+               # evaluation they write no parameter and draw nothing - and must leave no other trace either
+               "fail_dict", "fail_hilbert", "fail_save", "fail_rot", "fail_lambda", "fail_stopval", "fail_mult",
+               "fail_sample", "fail_load"]
 EVAL_WAVE = ["psi", "amp", "phase", "rotpsi", "rotinner"]
-EVAL_BASES = ["nll_bases", "kl_bases", "grad_bases"]
+EVAL_BASES = ["nll_bases", "kl_bases", "grad_bases", "fail_grad", "fail_fit"]
 EVAL_DENSITY = ["rho", "rho_diag", "pi", "rotrho", "rotprobs"]
 
 
@@ -201,6 +205,8 @@ def _eval(ctx, op, r):
     basis = [r.choice("XYZ") for _ in range(nv)]
     if not any(b != "Z" for b in basis):
         basis[0] = "X"
+    if f.startswith("fail_"):
+        return _failing(ctx, f, r, space, samples)
     if f == "prob":
         return s.probability(space, s.normalization(space))
     if f == "norm":
@@ -258,6 +264,36 @@ def _eval(ctx, op, r):
     raise common.MachineryError("unknown evaluation %r" % f)
 
 
+def _failing(ctx, f, r, space, samples):
+    """A public call that raises (refused input, unknown letter, bad file ...); the user catches the exception.
+    The result token is the exception class."""
+    s, sess = ctx.state, ctx.sess
+    nv = sess.nv
+    from qucumber.callbacks import LambdaCallback
+    bad_bases = np.array([["X"] + ["Z"] * (nv - 1), ["Y"] + ["Z"] * (nv - 1), ["Q"] + ["Z"] * (nv - 1), ["Z"] * nv,
+                          ["Z"] * nv, ["X"] + ["Z"] * (nv - 1)])
+    calls = {
+        "fail_dict": lambda: unitaries.create_dict(**{"Q": r.choice([[torch.ones(2, 2), torch.zeros(2, 2)],
+                                                                       [[1, 0], [0]], None])}),
+        "fail_hilbert": lambda: s.generate_hilbert_space(size=r.choice([21, 30, 64])),
+        "fail_save": lambda: s.save(io.BytesIO(), {r.choice(s.networks): 1}),
+        "fail_rot": lambda: (unitaries.rotate_rho if sess.typ == "density" else unitaries.rotate_psi)(
+            s, ["Q"] + ["Z"] * (nv - 1), space),
+        "fail_lambda": lambda: LambdaCallback(on_train_start=lambda: None),
+        "fail_stopval": lambda: setattr(s, "stop_training", "yes"),
+        "fail_mult": lambda: SigmaZ() * SigmaX(),
+        "fail_sample": lambda: s.sample(k=1, num_samples=-2),
+        "fail_load": lambda: s.load(io.BytesIO(b"not a saved state")),
+        "fail_grad": lambda: s.gradient(samples, bases=bad_bases),
+        "fail_fit": lambda: s.fit(samples, epochs=1, pos_batch_size=2),
+    }
+    try:
+        calls[f]()
+    except Exception as ex:
+        return "raised:" + type(ex).__name__
+    return "no-exception"
+
+
 def execute(ctx, op, seed_of=None):
     """Perform one abstract operation through the public API; returns the result."""
     sess, o = ctx.sess, op["o"]
@@ -286,6 +322,10 @@ def execute(ctx, op, seed_of=None):
     if o in ("Sample", "ObsSample"):
         init = torch.tensor(sess.bits(r, max(op["n"], 1)), dtype=torch.double) if op["init"] else None
         ow = r.random() < 0.5
+        if op["init"] and r.random() < 0.3:
+            # the chains start from the enumeration of all basis states the library hands out, advanced in place
+            # (what the library hands out is the caller's to overwrite; nobody else may be looking at it)
+            init, ow = s.generate_hilbert_space(), True
         if o == "Sample":
             return s.sample(k=op["k"], num_samples=op["n"], initial_state=init, overwrite=ow)
         obs = r.choice([SigmaZ(), SigmaX(), NeighbourInteraction(periodic_bcs=True)])
